@@ -3,18 +3,19 @@
 #  1. patch applies and the workspace test suite (baseline command) gives no new failures,
 #  2. the demonstration fails with the change and passes without it.
 # Writes /tmp/mut/out/<ID>/<X>/verify.log and verify.json.
-ID=$1; X=$2
+ID=$1; X=$2; PATCH=${3:-patch.diff}
 WT=/tmp/mut/$ID; OUT=/tmp/mut/out/$ID/$X; LOG=$OUT/verify.log
 export CARGO_NET_OFFLINE=true CARGO_TARGET_DIR=/tmp/mv-target
 : > $LOG
 git -C $WT checkout -- . ; git -C $WT clean -fdq
+if [ "$PATCH" != "patch.diff" ]; then git -C $WT checkout -q --detach main; fi
 run_demo() {
   ( cd $OUT/demo && if [ -x ./run.sh ]; then CARGO_TARGET_DIR=/tmp/mv-demo-target timeout 600 ./run.sh; else CARGO_TARGET_DIR=/tmp/mv-demo-target timeout 600 cargo run --offline --release; fi ) >>$LOG 2>&1
   echo $?
 }
 echo "=== demo WITHOUT change" >>$LOG
 D0=$(run_demo)
-if ! git -C $WT apply $OUT/patch.diff 2>>$LOG; then echo '{"applies":false}' > $OUT/verify.json; exit 1; fi
+if ! git -C $WT apply $OUT/$PATCH 2>>$LOG; then echo '{"applies":false}' > $OUT/verify.json; exit 1; fi
 echo "=== demo WITH change" >>$LOG
 D1=$(run_demo)
 echo "=== test suite WITH change" >>$LOG
